@@ -13,7 +13,7 @@ R9 the bootstrap consumes its input sample only through modSwitchFromTorus32(., 
 rotate-and-extract call (the output is a function of the rounded phase).
 """
 from sa import bounds, summ, sym
-from sa.facts import Program
+from sa.facts import Program, walk
 from sa.sym import I, ZERO
 from rules import c11, c14
 
@@ -26,50 +26,148 @@ def calls_of(ps):
 
 
 def check_blind_rotate(chk, v, suffix, rule):
+    """Blind rotation as a transition system (sa/loopstate.py): the loop body is interpreted once per reachable value of the
+    loop-carried variables (the buffer pointers or the index that selects them) and per control path.  A ghost cell C
+    names the buffer that holds the accumulator value: C = accum at entry; a step must read C, write the other buffer and
+    use row bk+i with exponent bara[i]; C follows the destination.  At every possible exit the value must be in accum:
+    copied back exactly when C is not accum.  Independent of how the ping-pong is written (swap, toggled index, ...)."""
+    from sa import loopstate, pam
+    from sa.symexec import flat
     vn = v.name
     h = v.fn("tfhe_blindRotate" + suffix)
     hacc, hbk, hbara, hn, hpar = [p["n"] for p in h.params]
+    ACC, BK, BARA, NN = sym.sym(hacc), sym.sym(hbk), sym.sym(hbara), sym.sym(hn)
+    muxname = "tfhe_MuxRotate" + suffix
+    key = "%s: every i in [0,n) with bara_i != 0 applies CMux(bk_i, X^bara_i) with ping-pong buffers" % h.name
     hps, heff = summ.pieces(v, h, hooks=NOINLINE)
-    hcs = calls_of(hps)
-    mux = [c for c in hcs if c["name"] == "tfhe_MuxRotate" + suffix]
+    mux_p = [c for c in calls_of(hps) if c["name"] == muxname]
     problems = []
-    if any(p["kind"] in ("while", "unknown") for p in hps):
-        problems.append("the rotation loop is not a canonical counted loop")
-    if len(mux) != 1 or len(mux[0]["loops"]) != 1 or "var" not in mux[0]["loops"][0]:
-        problems.append("expected one CMux call inside one counted loop")
-    else:
-        lp = mux[0]["loops"][0]
-        i = lp["var"]
-        if (lp["lo"], lp["cmp"], lp["hi"]) != (ZERO, "<", sym.sym(hn)):
-            problems.append("rotation loop covers [%s %s %s), expected [0,n)" % (sym.show(lp["lo"]), lp["cmp"], sym.show(lp["hi"])))
-        ma = mux[0]["args"]
-        barai = sym.idx(sym.sym(hbara), i)
-        if ma[3] != barai or ma[2] != sym.padd(sym.sym(hbk), i):
-            problems.append("step i uses exponent %s and key row %s; expected bara[i], bk+i" % (sym.show(ma[3]), sym.show(ma[2])))
-        gd = mux[0]["guards"]
-        if gd != [sym.unop("!", sym.binop("==", barai, ZERO))] and gd != [sym.binop("!=", barai, ZERO)]:
-            problems.append("the step is guarded by %s, expected only 'bara[i] != 0'" % [sym.show(t) for t in gd])
-        # ping-pong: destination and source are the two buffers, swapped exactly when a step ran; copy back when needed
-        d, s_ = ma[0], ma[1]
-        swaps = [p for p in hps if p["kind"] == "store" and p.get("loops") and p["lv"] in (d, s_) and p["val"] in (d, s_) and p["lv"] != p["val"]]
-        if d[0] != "var" or s_[0] != "var" or len(swaps) != 2:
-            problems.append("ping-pong buffers are not swapped after each step")
-        elif any(sw["guards"] != gd for sw in swaps):
-            problems.append("the buffers are swapped under %s but the step runs under %s: a skipped step (bara[i] = 0) still swaps, so the "
-                            "current accumulator pointer designates a stale buffer" % ([sym.show(t) for t in swaps[0]["guards"]], [sym.show(t) for t in gd]))
-        elif any(sw["line"] < mux[0]["line"] for sw in swaps) and not any(sw.get("stack") for sw in swaps):
-            problems.append("the buffers are swapped before the step")
-        inits = {p["lv"]: p["val"] for p in hps if p["kind"] == "store" and not p["loops"] and p["lv"] in (d, s_)}
-        if inits.get(s_) != sym.sym(hacc) or inits.get(d) is None or inits.get(d)[0] != "obj":
-            problems.append("buffers start as %s: expected source = accum, destination = a fresh sample" % {
-                sym.show(k): sym.show(val)[:30] for k, val in inits.items()})
-        cb = [c for c in hcs if c["name"] == "tLweCopy"]
-        if len(cb) != 1 or cb[0]["args"][:2] != [sym.sym(hacc), s_] or \
-                cb[0]["guards"] not in ([sym.binop("!=", s_, sym.sym(hacc))], [("op", "!=", s_, sym.sym(hacc))]):
-            problems.append("the result is not copied back to accum exactly when the last source buffer is not accum")
-    chk.require(not problems, rule, "%s: every i in [0,n) with bara_i != 0 applies CMux(bk_i, X^bara_i) with ping-pong buffers" % h.name,
-                where=h.where, ok="for i in [0,n): if bara[i] != 0: MuxRotate(temp2, temp3, bk+i, bara[i]); swap; copy back iff temp3 != accum",
-                bad="; ".join(problems), variant=vn)
+    if any(p["kind"] in ("while", "unknown") for p in hps) or len(mux_p) != 1 or len(mux_p[0]["loops"]) != 1 or "var" not in mux_p[0]["loops"][0]:
+        chk.broken("%s: expected one %s call inside one counted loop" % (h.name, muxname))
+    lp = mux_p[0]["loops"][0]
+    rng = pam.ascending_range(lp)
+    if rng is None:
+        chk.broken("%s: rotation loop at line %s is not a unit-stride counted loop" % (h.name, lp.get("l")))
+    if rng != (ZERO, NN):
+        problems.append("rotation loop covers [%s, %s), expected [0,n): the mask coefficients outside it never rotate the accumulator" % (
+            sym.show(rng[0]), sym.show(rng[1])))
+    has_mux = lambda node: any(c.get("callee") == muxname for c in walk(node) if c.get("k") == "call")
+    try:
+        ts = loopstate.LoopMachine(v, h, has_mux, hooks=NOINLINE).explore()
+    except LookupError as e:
+        chk.broken(str(e))
+    i = ts["var"]
+    if i is None:
+        chk.broken("%s: induction variable of the rotation loop not found" % h.name)
+    barai = sym.idx(BARA, i)
+    names = ts["names"]
+
+    from sa.secretflow import eval_term
+    BARA_VALUES = (0, 1, 2, 3, 5, 1023, 1024, 1025, 2047)      # exponents in [0, 2N): 0, small, around N, 2N-1 (N = 1024)
+
+    def takes_path(asked):
+        """exponent values (from BARA_VALUES) for which this control path is taken; None when a condition involves anything but
+        the exponent bara[i]"""
+        out = []
+        vals = set(BARA_VALUES)
+        for cond, _ in asked:
+            for st in sym.subterms(cond):
+                if st[0] == "int":
+                    vals |= {st[1] - 1, st[1], st[1] + 1}        # the comparisons change truth value only next to their constants
+        for b in sorted(x for x in vals if 0 <= x < 2048):
+            ok = True
+            for cond, choice in asked:
+                val = eval_term(cond, {barai: b})
+                if val is None:
+                    return None
+                if bool(val) != choice:
+                    ok = False
+            if ok:
+                out.append(b)
+        return out
+
+    def distinct(a, b):
+        return loopstate.static_decide(("op", "!=", a, b))
+    seen = {(ts["init"], ACC)}
+    work = [(ts["init"], ACC)]
+    nsteps = 0
+    while work and not problems:
+        s, C = work.pop()
+        for s0, asked, out, st, nxt in ts["steps"]:
+            if s0 != s:
+                continue
+            nsteps += 1
+            taken = takes_path(asked)
+            if taken is None:
+                chk.broken("%s: the rotation step depends on %s" % (h.name, [sym.show(c) for c, ch in asked]))
+            if not taken:
+                continue                   # not taken for any exponent: a dead path
+            nonzero_taken = [b for b in taken if b != 0]
+            nonzero = False if not nonzero_taken else True
+            calls = [x for x in flat(out) if x["e"] == "call" and not x.get("noreturn")]
+            mux = [x for x in calls if x["name"] == muxname]
+            if st not in ("fall", "continue"):
+                chk.broken("%s: the rotation loop is left by '%s' in state %s" % (h.name, st, loopstate.show_state(s, names)))
+            if nonzero and len(mux) != 1:
+                problems.append("an iteration with bara[i] = %d makes %d CMux steps (path %s, line %s): the accumulator is not rotated by that "
+                                "exponent" % (nonzero_taken[0], len(mux), " and ".join("%s%s" % ("" if ch else "not ", sym.show(c)) for c, ch in asked) or "-",
+                                              lp.get("l")))
+                break
+            C2 = C
+            if mux:
+                if len(mux) > 1:
+                    problems.append("an iteration makes %d CMux steps" % len(mux))
+                    break
+                d, s_, row, ex_ = mux[0]["args"][:4]
+                if s_ != C:
+                    problems.append("a step reads %s but the accumulator value is in %s (carried state %s, line %s): the step works on a stale buffer" % (
+                        sym.show(s_)[:40], sym.show(C)[:40], loopstate.show_state(s, names), mux[0]["l"]))
+                    break
+                if distinct(d, s_) is not True:
+                    problems.append("a step writes %s while reading %s (line %s): source and destination of the CMux must be different buffers" % (
+                        sym.show(d)[:40], sym.show(s_)[:40], mux[0]["l"]))
+                    break
+                if d != ACC and d[0] != "obj":
+                    problems.append("a step writes to %s, which is neither accum nor a sample allocated here" % sym.show(d)[:40])
+                    break
+                if ex_ != barai or row != sym.padd(BK, i):
+                    problems.append("step i uses exponent %s and key row %s; expected bara[i], bk+i" % (sym.show(ex_), sym.show(row)))
+                    break
+                C2 = d
+            if (nxt, C2) not in seen:
+                seen.add((nxt, C2))
+                work.append((nxt, C2))
+    nexits = 0
+    for s, C in sorted(seen, key=repr):
+        if problems:
+            break
+        for s0, asked, out, st in ts["exits"]:
+            if s0 != s:
+                continue
+            nexits += 1
+            calls = [x for x in flat(out) if x["e"] == "call" and not x.get("noreturn")]
+            copies = [x for x in calls if x["name"] == "tLweCopy" and x["args"][0] == ACC]
+            frees = [k for k, x in enumerate(calls) if x["name"].startswith("delete_") and x["args"] and x["args"][0] == C]
+            away = distinct(C, ACC)
+            if away is None:
+                chk.broken("%s: cannot tell whether %s is accum" % (h.name, sym.show(C)))
+            cond_txt = " (taking %s)" % ", ".join("%s%s" % ("" if ch else "not ", sym.show(c)) for c, ch in asked) if asked else ""
+            if away:
+                good = [x for x in copies if x["args"][1] == C]
+                if len(good) != 1 or len(copies) != 1:
+                    problems.append("after an odd number of steps the accumulator value is in %s (carried state %s) but it is %s%s: the caller reads a stale accum" % (
+                        sym.show(C)[:40], loopstate.show_state(s, names),
+                        "not copied back to accum" if not copies else "overwritten from %s" % [sym.show(x["args"][1])[:30] for x in copies], cond_txt))
+                elif frees and frees[0] < calls.index(good[0]):
+                    problems.append("the buffer holding the result is deleted before it is copied back")
+            elif copies:
+                problems.append("the accumulator value is already in accum (carried state %s) but accum is overwritten from %s%s" % (
+                    loopstate.show_state(s, names), [sym.show(x["args"][1])[:30] for x in copies], cond_txt))
+    chk.require(not problems, rule, key, where=h.where,
+                ok="%d carried states, %d (state, path) steps, %d exits: each step reads the buffer holding the value, writes the other one with "
+                   "(bk+i, bara[i]); skipped iff bara[i] == 0; value copied back to accum exactly when it ends in the scratch sample" % (
+                       len(ts["states"]), nsteps, nexits),
+                bad="; ".join(problems)[:700], variant=vn)
 
 
 def run(chk):
